@@ -68,7 +68,7 @@ func (g *gen) text() string {
 func (g *gen) jsonVal(depth int) any {
 	switch x := g.rng.Intn(9); {
 	case depth > 2 || x < 3:
-		return []any{"s", "ünï\n", 1.0, -2.5, true, nil, "", 1e3}[g.rng.Intn(8)]
+		return []any{"s", "ünï\n", 1.0, -2.5, true, nil, "", 1e3, json.Number("9007199254740993"), json.Number("-12345678901234567890")}[g.rng.Intn(10)]
 	case x < 6:
 		m := map[string]any{}
 		for i := 0; i < g.rng.Intn(4); i++ {
@@ -579,7 +579,8 @@ func invalidate(rng *rand.Rand, doc map[string]any) (string, []byte) {
 		d[k] = v
 	}
 	kinds := []string{"max_tokens=0", "max_tokens=-5", "max_tokens-absent", "temperature=-0.1", "temperature=2.5", "top_p=1.5", "top_p=-1", "top_k=-1", "model-empty", "model-absent", "messages-empty", "messages-absent",
-		"type:max_tokens-string", "type:messages-string", "type:stream-string", "type:model-number", "syntax:truncated", "syntax:garbage", "syntax:empty"}
+		"type:max_tokens-string", "type:messages-string", "type:stream-string", "type:model-number", "syntax:truncated", "syntax:garbage", "syntax:empty",
+		"role:unknown/string-content", "role:unknown/block-content", "role:system-in-messages", "role:empty", "tool_choice:unknown-type", "tool_choice:unknown-string", "tool_use:no-id", "tool_use:no-name"}
 	k := kinds[rng.Intn(len(kinds))]
 	switch k {
 	case "max_tokens=0":
@@ -614,6 +615,26 @@ func invalidate(rng *rand.Rand, doc map[string]any) (string, []byte) {
 		d["stream"] = "yes"
 	case "type:model-number":
 		d["model"] = 7
+	case "role:unknown/string-content":
+		d["messages"] = []any{map[string]any{"role": "banana", "content": "hi"}}
+	case "role:unknown/block-content":
+		d["messages"] = []any{map[string]any{"role": "user", "content": "hi"}, map[string]any{"role": "tool", "content": []any{map[string]any{"type": "text", "text": "x"}}}}
+	case "role:system-in-messages":
+		d["messages"] = []any{map[string]any{"role": "system", "content": []any{map[string]any{"type": "text", "text": "be terse"}}}, map[string]any{"role": "user", "content": "hi"}}
+	case "role:empty":
+		d["messages"] = []any{map[string]any{"role": "", "content": "hi"}}
+	case "tool_choice:unknown-type":
+		d["tools"] = []any{map[string]any{"name": "f", "description": "d", "input_schema": map[string]any{"type": "object"}}}
+		d["tool_choice"] = map[string]any{"type": "bogus"}
+	case "tool_choice:unknown-string":
+		d["tools"] = []any{map[string]any{"name": "f", "description": "d", "input_schema": map[string]any{"type": "object"}}}
+		d["tool_choice"] = "sometimes"
+	case "tool_use:no-id", "tool_use:no-name":
+		tu := map[string]any{"type": "tool_use", "id": "toolu_1", "name": "f", "input": map[string]any{"a": 1}}
+		delete(tu, strings.TrimPrefix(k, "tool_use:no-"))
+		d["messages"] = []any{map[string]any{"role": "user", "content": "go"},
+			map[string]any{"role": "assistant", "content": []any{map[string]any{"type": "text", "text": "calling"}, tu}},
+			map[string]any{"role": "user", "content": []any{map[string]any{"type": "tool_result", "tool_use_id": "toolu_1", "content": "42"}}}}
 	}
 	b, _ := json.Marshal(d)
 	switch k {
